@@ -4,6 +4,7 @@ import common
 from common import show_floats, show_ints
 import tprog, gen_dag, gen_ops
 
+tprog.ENTRIES = True        # function / Tensor method / operator / nn layer class
 tprog.SPELLINGS = True
 tprog.LAYOUTS = True      # leaves are handed over in C / Fortran / strided / negative-stride / offset / transposed layouts
 PROP = 'C01'
@@ -53,7 +54,11 @@ def finish(c, rng):
         lines += [f't grad {k}' for k in range(nl)]
         # a second sweep through the same graph after zeroing the leaves must reproduce the gradients: whatever the op saved for
         # its backward (operands, outputs, masks, statistics) has to survive the first sweep
-        lines += [f't zero {k}' for k in range(nl) if len(c['leaves'][k]) < 3 or c['leaves'][k][2]]
+        # before the second sweep every differentiable leaf is either zeroed or FROZEN (requires_grad switched off, its gradient
+        # kept): a frozen operand is outside the graph being differentiated and its stale gradient must not move
+        for k in range(nl):
+            if len(c['leaves'][k]) < 3 or c['leaves'][k][2]:
+                lines.append(f't zero {k}' if rng.chance(.65) else f't setrg {k} 0')
         lines += [f"t bw {nl + k} {show_ints(sh)} {show_floats(g)}" for k, (sh, g) in enumerate(c['gs'])]
         lines += [f't grad {k}' for k in range(nl)]
         c['lines'] = lines
@@ -66,7 +71,7 @@ def cases(rng, tier):
     out = []
     per = 14 if tier == 'quick' else 400
     for op in gen_ops.OPS_BASIC:
-        for k in range(per * (3 if op in ('slice', 'max', 'min') else 1)):      # the index-expression space is the largest; max / min have tie and dim=None branches
+        for k in range(per * (3 if op in ('slice', 'max', 'min', 'unfold_dim') else 1)):      # the index-expression space is the largest; max / min have tie and dim=None branches
             malformed = rng.chance(0.08)
             try:
                 out.append(finish(build(rng, op, malformed), rng))
